@@ -281,8 +281,9 @@ func (g *Gate) labels() (labels []string, hb bool) {
 // finisher completes a call exactly once; Ensure (deferred by every wrapper method) completes it when
 // the backend panicked, so that the controller never waits for a call that will not return.
 type finisher struct {
-	once sync.Once
-	f    func(err error, n int, handles int)
+	once  sync.Once
+	f     func(err error, n int, handles int)
+	mtime int64 // Chtimes: the time stamp being set (ns since the gate was created)
 }
 
 func (d *finisher) Finish(err error, n int, handles int) { d.once.Do(func() { d.f(err, n, handles) }) }
@@ -335,7 +336,9 @@ func (g *Gate) enter(owner, op, path string, mut bool, fileOp bool) (ev Event, a
 		<-g.crashCh // closed only at Shutdown: the owner stops here for the rest of the scenario
 		act = Fail
 	}
+	fin = &finisher{}
 	done := func(err error, n int, handles int) {
+		ev.MTime = fin.mtime
 		ev.OK = err == nil
 		if err != nil {
 			ev.Err = err.Error()
@@ -357,7 +360,7 @@ func (g *Gate) enter(owner, op, path string, mut bool, fileOp bool) (ev Event, a
 			close(c.done)
 		}
 	}
-	fin = &finisher{f: done}
+	fin.f = done
 	return
 }
 
@@ -567,16 +570,12 @@ func (f *Fs) Chtimes(name string, atime time.Time, mtime time.Time) error {
 		done.Finish(ErrInjected, 0, f.OpenHandles())
 		return ErrInjected
 	}
+	done.mtime = int64(mtime.Sub(f.G.T0))
 	err := f.Base.Chtimes(name, atime, mtime)
 	if err == nil {
 		f.G.refreshed(name)
 	}
 	done.Finish(err, 0, f.OpenHandles())
-	f.G.mu.Lock()
-	if n := len(f.G.log); n > 0 && f.G.log[n-1].Op == "Chtimes" && f.G.log[n-1].Owner != "" {
-		f.G.log[n-1].MTime = int64(mtime.Sub(f.G.T0))
-	}
-	f.G.mu.Unlock()
 	return err
 }
 
